@@ -75,7 +75,19 @@ def extract(repo):
     rd = lambda p: _strip(open(os.path.join(repo, p)).read())
     res = rd("src/express/resolve.c")
     exp = rd("src/express/express.c")
-    sub_ret = _cycle(_body(res, r"\bint\s+ENTITY_check_subsuper_cyclicity\s*\(\s*Entity\s+e\s*,\s*Entity\s+enew\s*\)\s*\{"), "subsuper")
+    # the sub/super search may sit behind a recursion-depth guard: wrapper ENTITY_check_subsuper_cyclicity (static depth counter,
+    # refusal through RESOLVEnested_too_deeply = SYNTAX, severity EXIT) around the worker ENTITY_check_subsuper_cyclicity_
+    sub_body = _body(res, r"\bint\s+ENTITY_check_subsuper_cyclicity\s*\(\s*Entity\s+e\s*,\s*Entity\s+enew\s*\)\s*\{")
+    depth_limit = None
+    mw = re.match(r"staticintdepth=0;intfound=0;if\(depth>=(\w+)\)\{RESOLVEnested_too_deeply\(&enew->symbol,enew,\"chainofsubtypes\"\);return0;\}"
+                  r"depth\+\+;found=ENTITY_check_subsuper_cyclicity_\(e,enew\);depth--;returnfound;$", _norm(sub_body))
+    if mw:
+        md = re.search(r"#define\s+" + mw.group(1) + r"\s+(\d+)", res)
+        if not md:
+            raise ValueError(f"{mw.group(1)} not found")
+        depth_limit = int(md.group(1))
+        sub_body = _body(res, r"\bstatic\s+int\s+ENTITY_check_subsuper_cyclicity_\s*\(\s*Entity\s+e\s*,\s*Entity\s+enew\s*\)\s*\{")
+    sub_ret = _cycle(sub_body, "subsuper")
     sel_ret = _cycle(_body(res, r"\bint\s+TYPE_check_select_cyclicity\s*\(\s*TypeBody\s+tb\s*,\s*Type\s+tnew\s*\)\s*\{"), "select")
     # the drivers: fresh search id per start node, start node not marked
     d1 = _norm(_body(res, r"\bvoid\s+ENTITYcheck_subsuper_cyclicity\s*\(\s*Entity\s+e\s*\)\s*\{"))
@@ -151,6 +163,8 @@ def extract(repo):
            f"def visitedReturnsSubsuper : Bool := {'true' if sub_ret else 'false'}",
            "/-- the same for `TYPE_check_select_cyclicity` -/",
            f"def visitedReturnsSelect : Bool := {'true' if sel_ret else 'false'}",
+           "/-- recursion depth at which `ENTITY_check_subsuper_cyclicity` refuses to go deeper (SYNTAX, severity EXIT), if guarded -/",
+           f"def subsuperDepthLimit : Option Nat := {'none' if depth_limit is None else 'some ' + str(depth_limit)}",
            "/-- `SCOPEfind_for_rename` falls back to scanning the exporting schema's not-yet-processed `uselist` -/",
            f"def renameUselistFallback : Bool := {'true' if uselist_fallback else 'false'}",
            "/-- `SCOPEfind_for_rename` skips the NULL entry a failed `USE FROM <schema>;` leaves in `use_schemas` (else: crash) -/",
